@@ -80,6 +80,12 @@ def setup_entry(it: Interp, func: VFunc, contract):
             else:
                 raise Unsupported(f"contract for {func.qualname} gives no kind for parameter {n!r}")
         bound[n] = it.fresh_value(kind, n)
+    if ".<locals>." in (contract.target or ""):
+        # a nested function: contract parameters that are not in its signature are the free
+        # variables it closes over (looked up like locals)
+        for n, kind in contract.params.items():
+            if n not in bound:
+                bound[n] = it.fresh_value(kind, n)
     if a.vararg or a.kwarg:
         if a.kwarg and a.kwarg.arg not in bound:
             bound[a.kwarg.arg] = it.new_container(VConstDict({}))
@@ -424,6 +430,9 @@ def verify_function(repo, registry, qualname, feas_ms=1500, solve_now=True, z3_m
     rep.line = node.lineno
     rep.hash = source_hash(node)
     func = VFunc(node, module, owner=cls, name=node.name)
+    if ".<locals>." in qualname:
+        # a nested function is named by its full path (module-relative), so that its obligations are
+        func.name = qualname.split("@")[0][len(module.name) + 1:]
     _JOB = (repo, registry, func, contract, feas_ms, z3_ms)
     procs = procs or int(os.environ.get("PYVC_PROCS", "16"))
     outcomes = {}
